@@ -465,6 +465,8 @@ class Interp:
         """-> Ordering enum value, using a user `cmp`/`partial_cmp` when the type defines one"""
         a = self.deref(a)
         b = self.deref(b)
+        if isinstance(a, St) and a.name == "Reverse":
+            return self.cmp(b.f["0"], a.f["0"])
         if isinstance(a, (St, En)) and a.name != "Ordering":
             ms = self.methods.get(a.name, {})
             if "cmp" in ms:
